@@ -165,7 +165,9 @@ main(int argc, char** argv)
     } else if (!strcmp(tok[0], "norm") && n == 2) {
       size_t len = 0;
       char*  s   = (char*)v_unhex(tok[1], &len, true);
+      v_alloc_mark(&va);
       char*  r   = zix_path_lexically_normal(&va.base, s);
+      const size_t asked = va.first_size;
       const std::string rs = r ? r : "";
       printf("norm out=%s", r ? hexs(rs).c_str() : "NULL");
       const fs::path want = fs::path(std::string(s, len)).lexically_normal();
@@ -176,39 +178,45 @@ main(int argc, char** argv)
         if (!r2 || rs != r2) printf(" SPEC-FAIL:not-idempotent");
         zix_free(&va.base, r2);
       }
-      printf("\nstd norm=%s\n", elems(want).c_str());
+      printf(" | alloc=%zu\nstd norm=%s\n", asked, elems(want).c_str());
       zix_free(&va.base, r);
       free(s);
     } else if (!strcmp(tok[0], "join") && n == 3) {
       size_t la = 0, lb = 0;
       char* a = strcmp(tok[1], "NULL") ? (char*)v_unhex(tok[1], &la, true) : NULL;
       char* b = strcmp(tok[2], "NULL") ? (char*)v_unhex(tok[2], &lb, true) : NULL;
+      v_alloc_mark(&va);
       char* r = zix_path_join(&va.base, a, b);
+      const size_t asked = va.first_size;
       printf("join out=%s", r ? hexs(r).c_str() : "NULL");
       const fs::path want = fs::path(std::string(a ? a : "", la)) / fs::path(std::string(b ? b : "", lb));
       if (!r || want.string() != r) printf(" SPEC-FAIL:text-differs-from-c++17-operator/");
-      putchar('\n');
+      printf(" | alloc=%zu\n", asked);
       zix_free(&va.base, r);
       free(a); free(b);
     } else if (!strcmp(tok[0], "rel") && n == 3) {
       size_t lp = 0, lb = 0;
       char* p = (char*)v_unhex(tok[1], &lp, true);
       char* b = (char*)v_unhex(tok[2], &lb, true);
+      v_alloc_mark(&va);
       char* r = zix_path_lexically_relative(&va.base, p, b);
+      const size_t asked = va.first_size;
       printf("rel out=%s", r ? hexs(r).c_str() : "NULL");
       const fs::path want = fs::path(std::string(p, lp)).lexically_relative(fs::path(std::string(b, lb)));
       if ((r == NULL) != want.empty()) printf(" SPEC-FAIL:null-iff-c++17-empty");
       else if (r && fs::path(r) != want) printf(" SPEC-FAIL:not-the-same-relative-path-as-c++17");
-      printf("\nstd rel=%s\n", want.empty() ? "NULL" : elems(want).c_str());
+      printf(" | alloc=%zu\nstd rel=%s\n", asked, want.empty() ? "NULL" : elems(want).c_str());
       zix_free(&va.base, r);
       free(p); free(b);
     } else if (!strcmp(tok[0], "pref") && n == 2) {
       size_t len = 0;
       char*  s   = (char*)v_unhex(tok[1], &len, true);
+      v_alloc_mark(&va);
       char*  r   = zix_path_preferred(&va.base, s);
+      const size_t asked = va.first_size;
       printf("pref out=%s", r ? hexs(r).c_str() : "NULL");
       if (!r || std::string(s, len) != r) printf(" SPEC-FAIL:preferred-changes-the-path-on-posix");
-      putchar('\n');
+      printf(" | alloc=%zu\n", asked);
       zix_free(&va.base, r);
       free(s);
     } else if (!strcmp(tok[0], "nullq")) {
